@@ -72,6 +72,7 @@ uint64_t g_forced_spin = 0;
 int64_t g_clock0 = 0;
 thread_local int t_self = -1;
 void (*g_invariant)() = nullptr;
+bool g_post_release = false;
 uint64_t g_rng = 0x9e3779b97f4a7c15ull;
 
 inline Thr &me() { return g_thr[t_self]; }
@@ -270,6 +271,7 @@ void begin(vf::Ctx &ctx) {
   g_points = 0;
   g_forced_spin = 0;
   g_invariant = nullptr;
+  g_post_release = false;
   g_rng = 0x9e3779b97f4a7c15ull;
   vf::clock_reset();
   vf::clock_set_autostep_ns(0);
@@ -416,6 +418,10 @@ void mutex_unlock(int m) {
   count_point(OP_UNLOCK, m);
   schedule(true);
   release_mutex(m);
+  if (g_post_release) {
+    count_point(OP_USER, m);
+    schedule(true);
+  }
 }
 
 static void reacquire(int m) {
@@ -604,6 +610,7 @@ std::string describe() {
 }
 
 void set_invariant(void (*fn)()) { g_invariant = fn; }
+void set_post_release_points(bool on) { g_post_release = on; }
 void fail(const std::string &sig, const std::string &msg) { g_ctx->exit_fail(sig, msg + "\n" + describe()); }
 vf::Ctx &ctx() { return *g_ctx; }
 
